@@ -247,8 +247,47 @@ def o7(tier):
     r.title = 'parse_imeta_tag (shared with C17-O4): the receiver applies the same validators as the sender and nothing more, and takes the values verbatim -- a tag produced by create_imeta_tag parses back to the same reference'
     return r
 
+@guard
+def o8(tier):
+    """every parse path is strict: key-package events need an explicit encoding tag; the group-data extension is only ever parsed through deserialize_bytes"""
+    import re
+    ob = Ob('O8', 'parse_key_package returns a key package only when ContentEncoding::from_tags found an explicit (base64) encoding tag; every mdk-core function that turns bytes into a '
+                  'NostrGroupDataExtension does so through deserialize_bytes, the one place that refuses trailing bytes (call graph from the MIR: from_raw / tls_deserialize_bytes have no other caller)',
+            pure=C.PURE_MLS)
+    f = ob.fn(CORE, 'key_packages::parse_key_package')
+    paths = ob.explore(f, [Opaque('self', '&MDK<Storage>'), Opaque('event', '&nostr::Event')])
+    n_ok = 0
+    for p in paths:
+        if p.kind == 'panic':
+            ob.require(False, 'O8/panic', p.msg, p); continue
+        if vname(p.ret) != 'Ok':
+            continue
+        n_ok += 1
+        ft = [e for e in p.trace if ev_is(e, 'from_tags')]
+        ob.require(len(ft) >= 1 and ob.eng.prove(p, ft[0].ret.discriminant() == 1)[0], 'O8/key-package-encoding-not-required',
+                   'parse_key_package accepts an event although no (valid) encoding tag was found: a missing or non-base64 encoding tag is silently read as base64', p)
+        ob.require(len(ft) >= 1 and uid_of(ob.eng, p.st, ft[0].args[0]).startswith('Tags::iter') and any(ev_is(e, 'Tags::iter') and uid_of(ob.eng, p.st, e.args[0]).startswith('*event') for e in p.trace),
+                   'O8/key-package-encoding-source', 'the encoding is not read from the tags of the event being parsed', p)
+    ob.require(n_ok >= 1, 'O8/vacuity', 'no accepting path of parse_key_package')
+    # call graph: who parses the raw extension
+    allowed = ('deserialize_bytes', 'ext_from_raw', 'raw_ext_from_bytes')           # the strict parser and the two cfg(verif-hooks) shims
+    n_sites = 0
+    for g in ob.prog.crates[CORE].funcs.values():
+        for bl in g.blocks.values():
+            t = bl[-1]
+            if re.search(r'NostrGroupDataExtension::from_raw\(|<TlsNostrGroupDataExtension as (tls_codec::)?Deserialize(Bytes)?>::tls_deserialize', t):
+                n_sites += 1
+                short = g.name.split('::')[-1]
+                ob.require(short in allowed, f'O8/extension-parsed-outside-deserialize_bytes/{short}',
+                           f'{g.name[-80:]} parses the raw group-data extension itself ({t.strip()[:100]}): the trailing-bytes check of deserialize_bytes is bypassed on this path')
+    ob.require(n_sites >= 2, 'O8/vacuity-callgraph', f'only {n_sites} parse sites found')
+    ob.r.bounds = {'paths': 'all', 'call graph': 'all mdk-core functions in the MIR dump (features verif-hooks, mip04)'}
+    ob.r.vacuity.append(f'{len(paths)} paths of parse_key_package ({n_ok} accepting); {n_sites} raw-extension parse sites')
+    return ob.done(cases=len(paths) + n_sites)
+
+
 def run(tier, seed, only=None):
-    obs = [('O1', o1), ('O2', o2), ('O3', o3), ('O5', o5), ('O6', o6), ('O7', o7)] + ([('O4', o4)] if tier == 'thorough' else [])
+    obs = [('O1', o1), ('O2', o2), ('O3', o3), ('O5', o5), ('O6', o6), ('O7', o7), ('O8', o8)] + ([('O4', o4)] if tier == 'thorough' else [])
     out = []
     for k, f in obs:
         if only and k not in only:
